@@ -612,6 +612,37 @@ pub fn check(c: &mut Case, p: &Params, obs: &Observed, sink: &mut Sink) {
                     }
                     let base_ok = matches!(base, Ok(b) if *b == original);
                     let back = reparse(c.xot, &original, body);
+                    // with an XML declaration (and no doctype, which xot refuses to parse) the WHOLE
+                    // output must reparse like the body alone, when the encoding is an EncName
+                    if p.doctype.is_none() {
+                        if let Some((enc, _)) = &p.decl {
+                            let enc_ok = enc.as_ref().map_or(true, |e| {
+                                let mut cs = e.chars();
+                                cs.next().map_or(false, |c| c.is_ascii_alphabetic()) && cs.all(|c| c.is_ascii_alphanumeric() || c == '.' || c == '_' || c == '-')
+                            });
+                            let uses_parse = match &original {
+                                CNode::Elem { .. } => true,
+                                CNode::Doc(k) => k.iter().filter(|x| matches!(x, CNode::Elem { .. })).count() == 1 && !k.iter().any(|x| matches!(x, CNode::Text(_))),
+                                _ => false,
+                            };
+                            if enc_ok && uses_parse {
+                                let full = reparse(c.xot, &original, s);
+                                let same = match (&full, &back) {
+                                    (Some(Ok(x)), Some(Ok(y))) => x == y,
+                                    (Some(Err(_)), Some(Err(_))) => true,
+                                    (None, None) => true,
+                                    _ => false,
+                                };
+                                if same {
+                                    sink.stat("oracle.C14.declaration-reparsed");
+                                } else {
+                                    fail(sink, "C14", "C14:declaration-changes-reparse", &format!("{:?} reparses differently from its body", short(s)), c, p);
+                                }
+                            } else {
+                                sink.stat("oracle.C14.declaration-not-reparsed");
+                            }
+                        }
+                    }
                     if p.indent.is_none() {
                         match (&back, base_ok) {
                             (Some(Ok(b)), _) if *b == original => sink.stat("oracle.C14.options-reparse-equal"),
